@@ -90,6 +90,22 @@ def vars_specs() -> list[Spec]:
     ]
 
 
+def label_specs() -> list[Spec]:
+    """models.LabelEncoder (fit: the two fields; inverse_transform) as PermutationVariable uses it"""
+    m, L = "models.py", "L"
+    SORT = "sorted(set(y), key=lambda x: (isinstance(x, (int, float)), x))"
+    AFTER = ["self.__label_to_index__ =", "return self"]
+    return [
+        Spec("gen_le_fit_labels", m, "LabelEncoder", "fit", [("y", "y", LIST(L))], LIST(L),
+             attrs={"extract_assign": "self.__unique_labels__", "only_after": AFTER, "idioms": {SORT: ("(py_sorted_set L eqb leb {y})", LIST(L))}}),
+        Spec("gen_le_fit_index", m, "LabelEncoder", "fit", [("y", "y", LIST(L)), ("self.__unique_labels__", "labels", LIST(L))], DICT(L, NAT),
+             attrs={"extract_assign": "self.__label_to_index__", "assigned_before": ("self.__unique_labels__",), "only_after": ["return self"], "label_eqb": ("eqb", L)}),
+        Spec("gen_le_inverse_transform", m, "LabelEncoder", "inverse_transform",
+             [("self.__unique_labels__", "labels", OPT(LIST(L))), ("self.__label_to_index__", "index", DICT(L, NAT)), ("y", "y", LIST(NAT))], LIST(L), fallible=True,
+             attrs={"idioms": {"self.__set_y__(y)": ("{y}", LIST(NAT))}, "str_consts": {"unknown": ("unknown", L)}}),
+    ]
+
+
 FLOATS = {"sub": "fsub", "abs": "fabs", "ltb": "fltb", "leb": "fleb", "zero": "fzero", "one": "fone", "opp": "fopp", "add": "fadd", "div": "fdiv"}
 
 
@@ -344,6 +360,8 @@ def regenerate(repo: Path) -> dict:
     emit_group(repo, "GenMultiVar.v", "From Coq Require Import List ZArith Bool Arith.\nFrom PV Require Import Xnum Select PyLib Argsort Vars.\nImport ListNotations.\n",
                "Variable C : Type.\nVariable L : Type.\nVariable draw_uniform : xnum -> xnum -> xnum.\nVariable draw_choice : nat -> nat.\n"
                "Variable draw_perm : nat -> list nat.\nVariable randomize1 : svar -> coord.\n", multivar_specs(), status)
+    emit_group(repo, "GenLabels.v", "From Coq Require Import List ZArith Bool Arith.\nFrom PV Require Import Xnum Select PyLib Labels.\nImport ListNotations.\n",
+               "Variable L : Type.\nVariable eqb : L -> L -> bool.\nVariable leb : L -> L -> bool.\nVariable unknown : L.\n", label_specs(), status)
     import ast as _ast
     try:
         mt = _ast.parse((repo / "pyvolutionary" / "models.py").read_text())
